@@ -187,7 +187,7 @@ func zzBuildCLI() (string, error) {
 	return bin, nil
 }
 
-var zzInitNames = []string{"", "sub.yml", ".yaml", "dir", "x/y.yml", "x/.yml"}
+var zzInitNames = []string{"", "sub.yml", ".yaml", "dir", "x/y.yml", "x/.yml", ".", "x/."}
 
 // ZZ_C19_Init_native replays a model of cmd/task's ZZ_C19_Init against the built binary.
 func ZZ_C19_Init_native() {
@@ -249,6 +249,10 @@ func zzInitTarget(pos string) string {
 	case "dir":
 		return "dir/Taskfile.yml"
 	case "x/.yml": // an extension-only name keeps its directory
+		return "x/Taskfile.yml"
+	case ".": // the current directory is a directory, not an extension
+		return "Taskfile.yml"
+	case "x/.":
 		return "x/Taskfile.yml"
 	}
 	return pos
@@ -425,7 +429,7 @@ func ZZ_C19_CLI_native() {
 	if assign {
 		second = "printf '<%s>' {{.NAME | q}} Z\n      - printf '(%s)' {{q .NAME}} {{shellQuote .NAME}} Z >&2"
 	}
-	os.WriteFile(filepath.Join(wd, "Taskfile.yml"), []byte("version: '3'\nsilent: true\ntasks:\n  show:\n    cmds:\n      - printf '[%s]' {{.CLI_ARGS}}\n      - "+second+"\n"), 0o644)
+	os.WriteFile(filepath.Join(wd, "Taskfile.yml"), []byte("version: '3'\nsilent: true\ntasks:\n  show:\n    cmds:\n      - defer: printf '{%s}' {{.CLI_ARGS}}\n      - printf '[%s]' {{.CLI_ARGS}}\n      - "+second+"\n"), 0o644)
 	argv := []string{"show"}
 	if assign {
 		argv = append(argv, "NAME="+val)
@@ -446,6 +450,12 @@ func ZZ_C19_CLI_native() {
 	got := stdout.String()
 	templated := strings.Contains(val, "{{")
 	zz.Assert((runErr == nil || templated) && strings.HasPrefix(got, want), "forwarded-arguments-reach-the-command-uninterpreted")
+	wantDeferred := ""
+	for _, a := range post {
+		wantDeferred += "{" + a + "}"
+	}
+	zz.Assert(templated || strings.HasSuffix(got, wantDeferred), "forwarded-arguments-reach-a-deferred-command-uninterpreted")
+	got = strings.TrimSuffix(got, wantDeferred)
 	if assign {
 		zz.Assert(templated || (runErr == nil && strings.HasSuffix(got, "]<"+val+"><Z>")), "assignment-value-reaches-the-command-split-at-first-equals")
 		zz.Assert(templated || (runErr == nil && stderr.String() == "("+val+")("+val+")(Z)"), "shellQuote-and-q-pass-the-value-as-one-quoted-word")
@@ -555,5 +565,55 @@ func ZZ_CLI_ExitStatus_native() {
 	zz.Assert(code == want, "exit-status/"+kinds[kind])
 	if kind != 0 {
 		zz.Assert(!strings.Contains(string(out), "RAN:"), "no-command-runs/"+kinds[kind])
+	}
+}
+
+// ZZ_C12_QueryFlags_native replays a model of cmd/task's ZZ_C12_QueryFlagsMeanDry against the
+// built binary: a fingerprinted task run once; a source edited; the query; then the project
+// tree must be unchanged, and a following run must still see the edit.
+func ZZ_C12_QueryFlags_native() {
+	dry, status := zz.Bool("flag_dry"), zz.Bool("flag_status")
+	force, summary := zz.Bool("flag_force"), zz.Bool("flag_summary")
+	bin, err := zzBuildCLI()
+	if err != nil {
+		fmt.Println("ZZ-NOTE build failed:", err)
+		return
+	}
+	defer os.RemoveAll(filepath.Dir(bin))
+	wd, _ := os.MkdirTemp("", "zzwd")
+	defer os.RemoveAll(wd)
+	os.WriteFile(filepath.Join(wd, "Taskfile.yml"), []byte("version: '3'\nsilent: true\ntasks:\n  show:\n    sources: ['*.src']\n    cmds:\n      - echo RAN >> trace.log\n"), 0o644)
+	os.WriteFile(filepath.Join(wd, "a.src"), []byte("v0"), 0o644)
+	run := func(args ...string) {
+		c := exec.Command(bin, args...)
+		c.Dir = wd
+		out, err := c.CombinedOutput()
+		fmt.Printf("ZZ-NOTE %q -> %q %v\n", args, out, err)
+	}
+	snapshot := func() string {
+		s := ""
+		filepath.Walk(wd, func(p string, info os.FileInfo, err error) error {
+			if err == nil && !info.IsDir() {
+				b, _ := os.ReadFile(p)
+				s += fmt.Sprintf("%s %q %d\n", p, b, info.ModTime().UnixNano())
+			}
+			return nil
+		})
+		return s
+	}
+	run("show")
+	os.WriteFile(filepath.Join(wd, "a.src"), []byte("v1"), 0o644)
+	before := snapshot()
+	var q []string
+	for name, on := range map[string]bool{"--dry": dry, "--status": status, "--force": force, "--summary": summary} {
+		if on {
+			q = append(q, name)
+		}
+	}
+	run(append(q, "show")...)
+	if dry || status {
+		zz.Assert(snapshot() == before, "dry-and-status-put-the-executor-in-dry-mode")
+		b, _ := os.ReadFile(filepath.Join(wd, "trace.log"))
+		zz.Assert(strings.Count(string(b), "RAN") == 1, "query-runs-no-command")
 	}
 }
